@@ -7,43 +7,43 @@ ALL = ["C%02d" % i for i in range(1, 21)]
 
 # id -> (technique, level text, level note, design section)
 CLAIMED = {
- "C15": ("stateful property-based testing of channel life cycles through the node's real tracker (regtest blocks with funding, double-spend, mutual / unilateral close, sweeps), forget requests, heartbeats, reorgs around the burial depth, restarts, id-reuse attempts; oracle = independent chain/forget model kept by the harness (a ready channel may vanish from memory and store only if forget was acknowledged and a terminal event is buried >= 100 on the model's best chain; ids at or below a forgotten id are never created again); compact, streamed or wire delivery of blocks",
+ "C15": ("stateful property-based testing of channel life cycles through the node's real tracker (regtest blocks with funding, double-spend, mutual / unilateral close, sweeps), forget requests, heartbeats, reorgs around the burial depth, restarts, id-reuse attempts; oracle = independent chain/forget model kept by the harness (a ready channel may vanish from memory and store only if forget was acknowledged and a terminal event is buried >= 100 on the model's best chain; ids at or below a forgotten id are never created again); compact, streamed or wire delivery of blocks; HTLC outputs with identical scripts, all-but-one sweeps, HTLC spends with fee inputs, closes whose second-level outputs stay unswept",
          "Held-on-N-histories exploration (burial depths 98..102 hit by construction).",
          "Over-retention is never judged; received HTLCs not required in the swept rule (weaker than the signer's, hence sound); compact block delivery only.",
          "C15"),
- "C20": ("randomised concurrency testing: proptest-generated programs of 2-3 threads with fixed-argument requests (plain scenario, and a chain scenario with funded and confirmed channels, a stub, funding-transaction signing, setup_channel and blocks that hold a closing transaction), thread schedules explored with shuttle (random and PCT schedulers, fixed seeds) on vls-core built with --cfg vls_verif; oracle = no deadlock/panic in any explored schedule and replies + final state equal to those of some sequential interleaving on a fresh world (linearizability witness search); wire-level ValidateCommitmentTx2 (protocol version 4) and invoice requests among the racing requests",
+ "C20": ("randomised concurrency testing: proptest-generated programs of 2-3 threads with fixed-argument requests (plain scenario, and a chain scenario with funded and confirmed channels, a stub, funding-transaction signing, setup_channel and blocks that hold a closing transaction), thread schedules explored with shuttle (random and PCT schedulers, fixed seeds) on vls-core built with --cfg vls_verif; oracle = no deadlock/panic in any explored schedule and replies + final state equal to those of some sequential interleaving on a fresh world (linearizability witness search); wire-level ValidateCommitmentTx2 (protocol version 4) and invoice requests among the racing requests; keysends through a stateless approver (duplicate hashes, invoice against keysend), TipInfo through the root handler; store entries compared modulo the order of serialised hash maps",
          "Exploration of sampled schedules (60 per program quick, 400 thorough), not enumeration; four genuine lock-order inversions and one atomicity defect (the last one introduced by an earlier repair and found by the check) were repaired by fix: commits and are kept as regression replays.",
          "The hook swaps std::sync for shuttle::sync in vls-core's prelude; behaviour outside those primitives is not modelled.",
          "C20"),
- "C10": ("stateful property-based testing with a union request machine (commitments on both sides, payments, on-chain, allowlist, tracker blocks, channel lifecycle) biased to refusable requests, on a plain and on a cloud-staged store, plus a wire group (holder-commitment histories through the protocol handlers at protocol versions 4-6, every refused message compared); oracle = full observation (all channels' enforcement state, node bookkeeping, tracker entry, store dump, pending mutations) is identical before and after every refused request",
+ "C10": ("stateful property-based testing with a union request machine (commitments on both sides, payments, on-chain, allowlist, tracker blocks, channel lifecycle) biased to refusable requests, on a plain and on a cloud-staged store, plus a wire group (holder-commitment histories through the protocol handlers at protocol versions 4-6, every refused message compared); oracle = full observation (all channels' enforcement state, node bookkeeping, tracker entry, store dump, pending mutations) is identical before and after every refused request; a sixth of the API histories on the redb store; wire group: SetupChannel for a never-announced channel",
          "Held-on-N-histories exploration; three genuine defects (revocation secret stored before refusal, allowlist partially applied, channel entry rewritten by the refused combined validate request) were repaired by fix: commits.",
          "Storage backend failures not generated; API-level requests with the handler's persist envelope; the wire group covers the channel handler's commitment requests on the in-memory store only.",
          "C10"),
- "C11": ("stateful property-based testing with crash injection after every request: a twin signer is restored from a copy of the store alone and compared field by field with the running signer on the items the property lists; memory store, cloud-staged store, vls-persist's BackupPersister (twin restored from the backup store alone), and the redb store vlsd uses by default (database on tmpfs; one twin from a byte copy of the database directory opened afresh, one from the listed entries); one channel carries a permanent id",
+ "C11": ("stateful property-based testing with crash injection after every request: a twin signer is restored from a copy of the store alone and compared field by field with the running signer on the items the property lists; memory store, cloud-staged store, vls-persist's BackupPersister (twin restored from the backup store alone), and the redb store vlsd uses by default (database on tmpfs; one twin from a byte copy of the database directory opened afresh, one from the listed entries); one channel carries a permanent id; a third of the histories start with a full header window",
          "Held-on-N-histories exploration (about 50k restores per quick run); the genuine defect found (forget flag not durable) was repaired by a fix: commit.",
          "Twin restored through the in-memory KVV store (redb reopen: C16); cloud store twin is restored from the committed local store.",
          "C11"),
- "C14": ("stateful property-based testing of channel monitors: generated transaction pools grouped into blocks, connect/disconnect histories with reorgs, compact and streamed delivery, driven both directly on ChainListener and through the real ChainTracker; oracle = differential against a fresh signer that connected only the surviving best chain, connect-disconnect identity, no abort; blocks delivered at API level or with protocol messages through the root handler",
+ "C14": ("stateful property-based testing of channel monitors: generated transaction pools grouped into blocks, connect/disconnect histories with reorgs, compact and streamed delivery, driven both directly on ChainListener and through the real ChainTracker; oracle = differential against a fresh signer that connected only the surviving best chain, connect-disconnect identity, no abort; blocks delivered at API level or with protocol messages through the root handler; batch open (one transaction funds two channels); fixed case: 100-block reorganisation after a restart",
          "Held-on-N-histories exploration; four genuine defects (forward-order undo, inverted watch changes, abort on revoked commitment, streamed removal always refused) were repaired by fix: commits.",
          "Regtest only for tracker-level runs; HTLC/second-level spends carry synthetic scripts (the monitor looks at outpoints only); chains up to 40 blocks.",
          "C14"),
- "C13": ("stateful property-based testing of ChainTracker on regtest with mined headers, constructed proofs and attestation sets; one injected fault per request (incl. repeated attestations), plus a node-level scenario (configured trusted oracle, restart from the store, block attested by an untrusted key); oracle = reference chain model (accepted implies no injected fault), snapshot equality after every refusal, a valid request succeeds after a rejection",
+ "C13": ("stateful property-based testing of ChainTracker on regtest with mined headers, constructed proofs and attestation sets; one injected fault per request (incl. repeated attestations), plus a node-level scenario (configured trusted oracle, restart from the store, block attested by an untrusted key); oracle = reference chain model (accepted implies no injected fault), snapshot equality after every refusal, a valid request succeeds after a rejection; the harness keeps its own record of the watched outpoints each block spends (removal proofs that hide a spend); a restored tracker must watch what was persisted; fixed case with 150 spent outpoints",
          "Held-on-N-histories exploration; three genuine defects (header popped before validation, streamed removal compared against the wrong hash, no abort path for refused streamed blocks) were repaired by fix: commits and are kept as regression replays.",
          "Only regtest proof-of-work can be mined: mainnet/testnet checkpoints get refusal paths only; retarget rule is the x4 band as implemented (no timestamp retargeting).",
          "C13"),
- "C09": ("property-based testing: sweeps with labelled destinations and version/locktime/sequence drawn around their bounds; second-level HTLC transactions as hand-built BOLT-3 reference +- one mutation; oracle = acceptance implies a reference predicate, sighash equality with the hand-built reference, signature verification under the expected derived key; both validator factories; operator filter assembled with merge",
+ "C09": ("property-based testing: sweeps with labelled destinations and version/locktime/sequence drawn around their bounds; second-level HTLC transactions as hand-built BOLT-3 reference +- one mutation; oracle = acceptance implies a reference predicate, sighash equality with the hand-built reference, signature verification under the expected derived key; both validator factories; operator filter assembled with merge; allowlist replacement requests (set_allowlist with an empty list, a strict subset, a disjoint list), also followed by restarts",
          "Held-on-N-cases exploration; the genuine defect found (sequence checked on input 0 instead of the signed input) was repaired by a fix: commit.",
          "HTLC redeemscripts from LDK (generator side only); reference second-level tx and to-local script hand-built with rust-bitcoin.",
          "C09"),
- "C19": ("property-based testing with generators derived at build time from the message definitions (build.rs parses msgs.rs/model.rs; unknown field types fail the build): encode/decode/re-encode round trip, Debug equality, typed-path agreement; semantic oracle for streamed PSBTs (transaction, previous outputs, independent BIP-141 segwit-flag rule); byte-level mutation fixed-point check in the thorough tier; framed write/read path over short-writing transports",
+ "C19": ("property-based testing with generators derived at build time from the message definitions (build.rs parses msgs.rs/model.rs; unknown field types fail the build): encode/decode/re-encode round trip, Debug equality, typed-path agreement; semantic oracle for streamed PSBTs (transaction, previous outputs, independent BIP-141 segwit-flag rule); byte-level mutation fixed-point check in the thorough tier; framed write/read path over short-writing transports; typed framed writer / reader (msgs::write, msgs::read_message::<T>) generated per message type",
          "Held-on-N-cases exploration over all 112 message types (>= 50 hits each or the run is vacuous); the genuine defect found (message id collision) was repaired by a fix: commit.",
          "Symmetric encoder/decoder errors are invisible to a round trip; rust-bitcoin and the txoo proof builder construct inputs.",
          "C19"),
- "C07": ("property-based testing: channel states reached by real requests x generated close proposals with labelled outputs through both entry points; oracle = acceptance implies a reference predicate (exists output assignment), signature verification against the harness-built closing transaction, closed flag in memory and in a signer restored from the store; both validator factories; start-up allowlist scenario over the wire",
+ "C07": ("property-based testing: channel states reached by real requests x generated close proposals with labelled outputs through both entry points; oracle = acceptance implies a reference predicate (exists output assignment), signature verification against the harness-built closing transaction, closed flag in memory and in a signer restored from the store; both validator factories; start-up allowlist scenario over the wire; operator carve-out filter (policy-mutual-* and the raw entry point's format rule stay errors, everything else is logged); allowlist replacement requests (set_allowlist with an empty list, a strict subset, a disjoint list); a pending holder commitment replaced through the raw entry point",
          "Held-on-N-cases exploration of mutual-close validation.",
          "Trusted: LDK ClosingTransaction builder, BOLT-3 closing witness weight 222, +2/kw tolerance.",
          "C07"),
- "C08": ("property-based testing: on-chain transactions assembled from labelled inputs/outputs/channels incl. arithmetic extremes; oracle = acceptance implies a reference predicate in u128, UnknownDestinations index set equals the labelled set, velocity ledger; both validator factories; wire group (SignWithdrawal with utxos and streamed PSBT, witnesses verified, unknown-destination set compared); start-up allowlist scenario",
+ "C08": ("property-based testing: on-chain transactions assembled from labelled inputs/outputs/channels incl. arithmetic extremes; oracle = acceptance implies a reference predicate in u128, UnknownDestinations index set equals the labelled set, velocity ledger; both validator factories; wire group (SignWithdrawal with utxos and streamed PSBT, witnesses verified, unknown-destination set compared); start-up allowlist scenario; wire group: an input the request does not describe at all (fee judged by what the transaction really spends); allowlist replacement requests",
          "Held-on-N-cases exploration of check_onchain_tx and Approve::handle_proposed_onchain.",
          "Weight lower bound as documented in check_onchain_tx; explicit approval of unknown outputs outside the oracle.",
          "C08"),
@@ -55,7 +55,7 @@ CLAIMED = {
          "Held-on-N-histories exploration; the genuine defect found (payments applied at revoke without re-validation) was repaired by a fix: commit and kept as a regression replay.",
          "Approval liveness (existence only) read from the node after pruning; issue-331 tolerated imbalance outside the oracle.",
          "C06"),
- "C04": ("property-based testing: generated setups x contents x one of 28 mutations of the raw transaction / witness scripts / arguments; oracle = byte equality with and signature verification against an independently built BOLT-3 reference transaction, differential between the semantic and raw entry points; both validator factories; wire group: commitment 0 and 1 through SignRemoteCommitmentTx2 (HTLC amounts in msat) and the raw-transaction request with a tx field that differs from the PSBT",
+ "C04": ("property-based testing: generated setups x contents x one of 28 mutations of the raw transaction / witness scripts / arguments; oracle = byte equality with and signature verification against an independently built BOLT-3 reference transaction, differential between the semantic and raw entry points; both validator factories; wire group: commitment 0 and 1 through SignRemoteCommitmentTx2 (HTLC amounts in msat) and the raw-transaction request with a tx field that differs from the PSBT; the peer announces one of the holder's per-commitment points right after the signer used it on the holder side",
          "Held-on-N-cases exploration of both counterparty-commitment entry points against reference transactions.",
          "Trusted: LDK CommitmentTransaction/build_htlc_transaction builders fed directly from the generated setup, rust-bitcoin sighash, libsecp256k1.",
          "C04"),
@@ -63,7 +63,7 @@ CLAIMED = {
          "Held-on-N-cases exploration; the genuine defect found (implied fee rate truncated to 32 bits) was repaired by a fix: commit and kept as a regression replay.",
          "Dust limit 330 sat and +2/kw rounding tolerance so that the oracle never demands more than the property; min_funding_depth is fixed at 1 by OnchainValidatorFactory.",
          "C05"),
- "C12": ("property-based testing of VelocityControl against an exact approvals ledger (window-sum oracle in u128), plus stateful generation on a real node (invoices, keysends, retries of the last invoice, on-chain fees) and on VelocityApprover with restarts from the store; invoices also proposed through the approver paths",
+ "C12": ("property-based testing of VelocityControl against an exact approvals ledger (window-sum oracle in u128), plus stateful generation on a real node (invoices, keysends, retries of the last invoice, on-chain fees) and on VelocityApprover with restarts from the store; invoices also proposed through the approver paths; node group also over the wire (HandlerBuilder signer, PreapproveInvoice / PreapproveKeysend, handler restarts)",
          "Held-on-N-sequences exploration; two genuine defects (controls reset by restart, fee control not persisted) were repaired by fix: commits and kept as regression replays.",
          "Non-decreasing timestamps; on-chain fees capped at 150 sat per request.",
          "C12"),
@@ -83,7 +83,7 @@ CLAIMED = {
          "Held-on-N-histories exploration with ledger invariants (a),(b),(c) and a reference model of the secret store.",
          "Trusted: LDK builders; store sequences limited to shapes the channel can feed (contiguous indices, right-secret retries).",
          "C03"),
- "C16": ("stateful property-based testing: differential (memory vs redb) + BTreeMap reference model; transaction invariants for the cloud store; batches may write one key twice with increasing versions",
+ "C16": ("stateful property-based testing: differential (memory vs redb) + BTreeMap reference model; transaction invariants for the cloud store; batches may write one key twice with increasing versions; crash reopen of redb (byte copy of the open database); cloud sync batches carrying the last-writer record",
          "Generated op sequences over small key/version/value alphabets are executed on the real MemoryKVVStore, RedbKVVStore (with real reopen) and CloudKVVStore and compared step by step with a reference model; held-on-N-cases exploration, not a proof.",
          "Trusted: redb itself, tmpfs for the database files; batches with duplicate keys, clear_database and reset_versions are outside the domain.",
          "C16"),
